@@ -71,6 +71,7 @@ class ShapeEval:
         self.P, self.f, self.consts = P, f, consts
         self.env: Dict[str, object] = {"levels": ("seq", N)}
         self.returns: List[object] = []
+        self.trace: List[str] = []  # value-affecting statements executed on this path (item stores, augmented assignments)
 
     # ---- integers
     def integer(self, e: ast.AST) -> Lin:
@@ -274,12 +275,14 @@ class ShapeEval:
                     else:
                         self.env[tgt.id] = self.value(st.value)
                 elif isinstance(tgt, ast.Subscript) and isinstance(tgt.value, ast.Name):
+                    self.trace.append(norm(st))
                     v = self.env.get(tgt.value.id)
                     if isinstance(v, tuple) and v[0] == "mask0" and isinstance(st.value, ast.Constant) and st.value.value is False:
                         self.env[tgt.value.id] = ("mask", v[1] - Lin(0, 1))
                     # item assignment preserves the shape of the container
                 continue
             if isinstance(st, ast.AugAssign):
+                self.trace.append(norm(st))
                 continue  # shape preserving
             if isinstance(st, ast.If):
                 t = self.test(st.test)
@@ -297,10 +300,12 @@ class ShapeEval:
                 for nm in ast.walk(st.target):
                     if isinstance(nm, ast.Name):
                         self.env[nm.id] = Lin(0, 0)
+                self.trace.append("for " + norm(st.target) + " in " + norm(st.iter) + ":")
                 try:
                     self.run(st.body)
                 except PathEnd:
                     raise Unknown("return inside a loop")
+                self.trace.append("end for")
                 continue
             if isinstance(st, ast.Try):
                 self.run(st.body)
@@ -354,7 +359,11 @@ def eval_method(P: Project, m: FunctionInfo, cq: str, reduced: bool, sparse: Opt
         except PathEnd:
             pass
         res.append((dict(zip(opts + extra, vals)), ev.returns))
+        TRACES[(m.qualname, reduced, sparse, tuple(sorted(zip(opts + extra, vals))))] = list(ev.trace)
     return res
+
+
+TRACES: Dict[tuple, List[str]] = {}
 
 
 def r1(ctx):
@@ -521,4 +530,108 @@ def r5(ctx):
               "Contrasts.apply must derive names and encoding from the same (levels, reduced_rank)")
 
 
-RULES = [("C11.R1", r1), ("C11.R2", r2), ("C11.R3", r3), ("C11.R4", r4), ("C11.R5", r5)]
+
+def r6(ctx):
+    """dense and sparse forms agree: the `sparse` flag only selects the container — the sequence of value-affecting statements
+    (item stores, augmented assignments) executed by _get_coding_matrix is the same for sparse=False and sparse=True."""
+    P = ctx.project
+    reg = registry(P)
+    n = 0
+    for key, cq in sorted(reg.items()):
+        if key == "custom":
+            continue
+        m = P.method(cq, "_get_coding_matrix")
+        TRACES.clear()
+        try:
+            eval_method(P, m, cq, True, False)
+            eval_method(P, m, cq, True, True)
+        except Unknown as u:
+            ctx.fail("C11.R6", f"{cq.split('.')[-1]}: dense/sparse traces", m.where, ctx.construct(m, text="dense=sparse"), f"unmodelled {u}")
+            continue
+        by_opts: Dict[tuple, Dict[bool, List[str]]] = {}
+        for (q, red, sp, opts), tr in TRACES.items():
+            by_opts.setdefault(opts, {})[sp] = tr
+        for opts, d in sorted(by_opts.items()):
+            if True in d and False in d:
+                n += 1
+                ctx.look()
+                ctx.check(d[True] == d[False], "C11.R6", f"{cq.split('.')[-1]}: the same value-affecting statements run for dense and sparse {dict(opts)}", m.where,
+                          ctx.construct(m, text=f"dense=sparse {dict(opts)}"),
+                          f"dense executes {d[False]} but sparse executes {d[True]}: the two forms of the coding matrix differ (e.g. a sign flip or scaling applied after "
+                          f"the sparse result was already returned)")
+    ctx.floor("C11.R6", n, 8, "dense/sparse trace comparisons")
+
+
+def linform(e: ast.AST) -> Optional[Dict[str, int]]:
+    """Linear form over integer symbols: {'i': 1, 'n': -1, '': 2} for i - n + 2; None if not linear."""
+    e = strip_casts(e)
+    if isinstance(e, ast.Constant) and isinstance(e.value, (int, float)) and not isinstance(e.value, bool):
+        return {"": e.value}
+    if isinstance(e, ast.Name):
+        return {e.id: 1}
+    if isinstance(e, ast.Call) and dotted(e.func) == "len" and e.args and norm(e.args[0]) == "levels":
+        return {"n": 1}
+    if isinstance(e, ast.UnaryOp) and isinstance(e.op, ast.USub):
+        v = linform(e.operand)
+        return None if v is None else {k: -c for k, c in v.items()}
+    if isinstance(e, ast.BinOp) and isinstance(e.op, (ast.Add, ast.Sub)):
+        l, r = linform(e.left), linform(e.right)
+        if l is None or r is None:
+            return None
+        out = dict(l)
+        for k, c in r.items():
+            out[k] = out.get(k, 0) + (c if isinstance(e.op, ast.Add) else -c)
+        return {k: c for k, c in out.items() if c != 0}
+    return None
+
+
+def _lf(text: str) -> Dict[str, int]:
+    return linform(ast.parse(text, mode="eval").body)
+
+
+def r7(ctx):
+    """The defining formulas of the Helmert / difference / sum codings, as linear forms in the loop index i and the level count n
+    (hand-verified against the textbook / R definitions for n = 2..5 at design time; any other formula re-opens the obligation)."""
+    P = ctx.project
+    H = P.method(f"{CONTRASTS}.HelmertContrasts", "_get_coding_matrix")
+    ctx.look(6)
+    stores = {}
+    for st in ast.walk(H.node):
+        if isinstance(st, ast.Assign) and isinstance(st.targets[0], ast.Subscript) and norm(st.targets[0].value) == "contr" and isinstance(st.targets[0].slice, ast.Tuple):
+            idx = tuple(linform(x) and tuple(sorted(linform(x).items())) for x in st.targets[0].slice.elts)
+            par = P.parent(st)
+            branch = None
+            if isinstance(par, ast.If) and norm(par.test) == "self.reverse":
+                branch = "reverse" if st in par.body else "forward"
+            stores[branch] = (idx, linform(st.value))
+    want = {"reverse": ((tuple(sorted(_lf("i + 1").items())), tuple(sorted(_lf("i").items()))), _lf("i + 1")),
+            "forward": ((tuple(sorted(_lf("i").items())), tuple(sorted(_lf("i").items()))), _lf("n - i - 1"))}
+    ctx.check(stores == want, "C11.R7", "Helmert: reverse puts i+1 at (i+1, i); forward puts n−i−1 at (i, i)", H.where, ctx.construct(H, text="helmert entries"),
+              f"diagonal entries are {stores}; expected {want}")
+    fill = [st for st in ast.walk(H.node) if isinstance(st, ast.Assign) and isinstance(st.targets[0], ast.Subscript) and norm(st.targets[0].value) == "contr"
+            and isinstance(st.targets[0].slice, ast.IfExp)]
+    ok = len(fill) == 1 and norm(fill[0].targets[0].slice) == "numpy.triu_indices(n - 1) if self.reverse else numpy.tril_indices(n, k=-1)" and norm(fill[0].value) == "-1"
+    ctx.check(ok, "C11.R7", "Helmert: −1 above the diagonal block (reverse) / below the diagonal (forward)", H.where, ctx.construct(H, text="helmert fill"),
+              f"fill statement is `{norm(fill[0]) if fill else None}`")
+    div = [st for st in ast.walk(H.node) if isinstance(st, ast.AugAssign) and isinstance(st.op, ast.Div)]
+    okd = False
+    if len(div) == 1 and isinstance(div[0].value, ast.IfExp) and norm(div[0].value.test) == "self.reverse" and norm(div[0].target) == "contr[:, i]":
+        okd = linform(div[0].value.body) == _lf("i + 2") and linform(div[0].value.orelse) == _lf("n - i")
+    ctx.check(okd, "C11.R7", "Helmert scaling: column i is divided by i+2 (reverse) / n−i (forward)", H.where, ctx.construct(H, text="helmert scaling"),
+              f"scaling statement is `{norm(div[0]) if div else None}`: the forward scaled coding would no longer be 'level minus mean of later levels'")
+    D = P.method(f"{CONTRASTS}.DiffContrasts", "_get_coding_matrix")
+    t = norm(D.node)
+    ok = "contr = numpy.repeat([numpy.arange(1, n)], n, axis=0) / n" in t and "contr[numpy.triu_indices(n, m=n - 1)] -= 1" in t and "if not self.backward: contr *= -1" in t.replace("\n", " ")
+    ctx.check(ok, "C11.R7", "difference coding: k/n with 1 subtracted on and above the diagonal, negated for forward differences", D.where, ctx.construct(D, text="diff entries"),
+              "DiffContrasts formula changed")
+    S = P.method(f"{CONTRASTS}.SumContrasts", "_get_coding_matrix")
+    ok = "contr[-1, :] = -1" in norm(S.node)
+    ctx.check(ok, "C11.R7", "sum coding: identity with a last row of −1", S.where, ctx.construct(S, text="sum entries"), "SumContrasts formula changed")
+    T = P.cls(f"{CONTRASTS}.TreatmentContrasts")
+    fb = T.methods["_find_base_index"]
+    ok = any(isinstance(x, ast.If) and norm(x.test) == "self.base is UNSET" for x in fb.node.body)
+    ctx.check(ok, "C11.R7", "an explicit reference level is recognised by identity with UNSET (0, False and '' are legitimate levels)", fb.where,
+              ctx.construct(fb, text="base sentinel"), "the base must be tested with `is UNSET`, not by truthiness")
+
+
+RULES = [("C11.R1", r1), ("C11.R2", r2), ("C11.R3", r3), ("C11.R4", r4), ("C11.R5", r5), ("C11.R6", r6), ("C11.R7", r7)]
